@@ -1,5 +1,5 @@
 (** C12 — every escrow record is well-formed and therefore payable. *)
-From FM Require Import Payable.
+From FM Require Import Accept.
 
 (** [wf_gbal g]: at least one asset, every amount in 1 .. 2^128-1, no duplicate denomination,
     token or NFT.  [wf_listing k l]: filed under (creator, id); goods and ask well-formed; ask
@@ -46,6 +46,51 @@ Print Assumptions C12_listing_topup_cap.
 Theorem C12_ask_accepted_iff : forall a, (exists va, validate_ask a = Ok va) <-> ask_ok a.
 Proof. exact validate_ask_iff. Qed.
 Print Assumptions C12_ask_accepted_iff.
+
+(** Deposits: accepted exactly when they keep the record well-formed — for a fresh legal id, an
+    owned listing still in preparation, or any owned bucket.  One theorem per generic handler;
+    the native, CW20-hook and CW721-hook messages are instances ([ok] is the deposit's own validity
+    check, [balance_in_range]: amounts are Uint128 values, as the JSON decoder guarantees). *)
+Theorem C12_bucket_creation_accepted_iff : forall c ok g id s,
+  Inv s -> (is_ok (create_bucket_g c ok g id s) = true <-> id < 9007199254740990 /\ ~ In id (b_used s) /\ ok = true).
+Proof. exact create_bucket_accept_iff. Qed.
+Print Assumptions C12_bucket_creation_accepted_iff.
+
+Theorem C12_listing_creation_accepted_iff : forall user ok g id a w s,
+  Inv s ->
+  (is_ok (create_listing_g user ok g id a w s) = true <->
+   id < 9007199254740990 /\ ok = true /\ ~ In id (l_used s) /\ wl_ok user w = true /\ ask_ok a).
+Proof. exact create_listing_accept_iff. Qed.
+Print Assumptions C12_listing_creation_accepted_iff.
+
+Theorem C12_bucket_topup_accepted_iff : forall sender b id s bk,
+  Inv s -> find_key (sender, id) (buckets s) = Some bk -> balance_in_range b ->
+  (is_ok (execute_add_to_bucket sender b id s) = true <->
+   normalized_check b = true /\ exists g, add_tokens (funds bk) b = Ok g /\ gsize g <= 25).
+Proof. exact add_to_bucket_accept_iff. Qed.
+Print Assumptions C12_bucket_topup_accepted_iff.
+
+Theorem C12_bucket_nft_topup_accepted_iff : forall user n id s bk,
+  Inv s -> find_key (user, id) (buckets s) = Some bk ->
+  (is_ok (execute_add_to_bucket_cw721 user n id s) = true <->
+   ~ In n (nfts (funds bk)) /\ gsize (funds bk) + 1 <= 25).
+Proof. exact add_nft_to_bucket_accept_iff. Qed.
+Print Assumptions C12_bucket_nft_topup_accepted_iff.
+
+Theorem C12_listing_topup_accepted_iff : forall sender b id s l,
+  Inv s -> find_key (sender, id) (listings s) = Some l -> balance_in_range b ->
+  (is_ok (execute_add_to_listing sender b id s) = true <->
+   lstatus l = BeingPrepared /\ normalized_check b = true /\
+   exists g, add_tokens (for_sale l) b = Ok g /\ gsize g <= 25).
+Proof. exact add_to_listing_accept_iff. Qed.
+Print Assumptions C12_listing_topup_accepted_iff.
+
+Theorem C12_listing_nft_topup_accepted_iff : forall user n id s l,
+  Inv s -> find_key (user, id) (listings s) = Some l ->
+  (is_ok (execute_add_to_listing_cw721 user n id s) = true <->
+   lstatus l = BeingPrepared /\ ~ In n (nfts (for_sale l)) /\ gsize (for_sale l) + 1 <= 25).
+Proof. exact add_nft_to_listing_accept_iff. Qed.
+Print Assumptions C12_listing_nft_topup_accepted_iff.
 
 (** Hence a payout can never be rejected by the bank or a token contract for being empty,
     zero or duplicated: every message of a bucket removal, listing deletion or
